@@ -13,7 +13,10 @@ R (meaning): TLC generates abstract queries (depth <= 3) and prints each in thre
    defines; TLC recomputes the match sets.  Field groups `f:( ... )` carry every decoration on their
    members (markers, boosts ^2 ^2.5 ^0.5, parentheses, nested boosts, chains, phrases with slop, inner
    groups): the group's field must reach every word below it - also judged through a QueryParser
-   WITHOUT default field (a fully scoped query means the same, any other is refused).  Marker x operator interaction: every chain of 2..3
+   WITHOUT default field (a fully scoped query means the same, any other is refused).  Phrases keep the
+   positions the analyzer gives their words: phrases with an over-long word (45 letters, dropped by the
+   `default` analyzer) in the middle / in front / at the end / twice, on a corpus holding the literal phrase,
+   the remaining words adjacent, and with another word between.  Marker x operator interaction: every chain of 2..3
    operands joined by AND / OR / juxtaposition with each operand bare or marked + / - / NOT
    (624 shapes, exhaustive), and random such chains inside the generated queries.
 Recorded findings are reproduced by small dedicated runs."""
